@@ -456,12 +456,13 @@ _STRUCTURED = {}
 def structured_xoshiro_seeds(tier="quick"):
     """seeds whose DOCUMENTED Xoshiro256 expansion has two structured state words at once (sparse / dense / leading or trailing zeros), found by
     the harness's own inversion of the published SplitMix64 (`seedfind`; deterministic): the inputs on which a seeding routine with a "quality"
-    guard over two state words differs from the published expansion"""
+    guard over two state words differs from the published expansion; plus the seeds with the lightest and the heaviest whole 256-bit state
+    (one word of weight <= 5 or >= 59 enumerated exhaustively in each position: reaches beyond 8 sigma of the weight distribution)"""
     if tier not in _STRUCTURED:
         rc, err, binary = C.harness_build("release")
         if rc != 0:
             return []
         iters = 50_000_000 if tier == "quick" else 1_000_000_000
         rc, out, err = C.run_lines(binary, ["run"], ["seedfind iters=%d seed=20260926 max=%d" % (iters, 3 if tier == "quick" else 8)])
-        _STRUCTURED[tier] = [int(x) for x in out[0][6:].split(",") if x] if out and out[0].startswith("seeds:") else []
+        _STRUCTURED[tier] = [int(x) for x in out[0].split()[0][6:].split(",") if x] if out and out[0].startswith("seeds:") else []
     return _STRUCTURED[tier]
